@@ -455,3 +455,72 @@ def replay_model_set(obligation, model, meta):
                     'observed': 'param %r, dae.Tf %r, Teye diagonal %r; expected Tf = Teye = %r' % (T.v.tolist(), dae.Tf.tolist(), teye.tolist(), want.tolist()),
                     'native_cmd': "Model.set(stub, 'T', idx, 'v', value)"}
     return {'confirmed': False, 'tried': 3}
+
+
+def as_df(pid):
+    """ModelData.as_df: the table is built from a FRESH walk over the parameters (as_dict with the same vin flag) at every call --
+    arrays are re-bound by System.reset() / setup(), so a cached dictionary may hold orphaned arrays -- indexed by 'uid'."""
+    from pyvc.symval import Mark, TBool
+
+    def as_dict(ex, st, args, kw, node):
+        st.ghost['walks'] = st.ghost['walks'] + [dict(kw)]
+        return Mark('fresh-dict', len(st.ghost['walks']))
+
+    def dataframe(ex, st, args, kw, node):
+        return Mark('df', args[0] if args else None)
+
+    def set_index(ex, st, args, kw, node):
+        base = args[0]
+        ok = isinstance(base, Mark) and base.kind == 'df' and len(args) == 2 and args[1] == 'uid'
+        return Mark('indexed', base.data[0] if ok else None)
+
+    def post(old, new, res):
+        walks = new.st.ghost['walks']
+        vin = old.st.env['vin']
+        ok = isinstance(res, Mark) and res.kind == 'indexed' and isinstance(res.data[0], Mark) and res.data[0].kind == 'fresh-dict' and len(walks) == 1
+        if not ok:
+            return z3.BoolVal(False)
+        want_vin = walks[0].get('vin', False)
+        v = vin if z3.is_expr(vin) else z3.BoolVal(bool(vin))
+        return v == z3.BoolVal(bool(want_vin is True))
+    c = Contract('andes/core/model/modeldata.py', 'ModelData.as_df', pid=pid, params={'self': TObj(), 'vin': TBool()}, schema={},
+                 ghost_init={'walks': []}, calls={'self.as_dict': as_dict, 'pd.DataFrame': dataframe, '<value>.set_index': set_index},
+                 globals_={'pd': __import__('pyvc.symval', fromlist=['Module']).Module('pd')},
+                 ensures=[('table=DataFrame(fresh as_dict(vin=vin)) indexed by uid', post)], modifies=[])
+    c.merge = False
+    return c
+
+
+def replay_as_df_after_reset(obligation=None, model=None, meta=None):
+    """native: export, System.reset(), alter parameters of a dynamic-only model and of a static model, export again: the table and the
+    json dump carry the altered input values"""
+    import contextlib
+    import io
+    import json
+    import logging
+    import numpy as np
+    import andes
+    from andes.io import json as aj
+    logging.getLogger('andes').setLevel(logging.CRITICAL)
+    with contextlib.redirect_stdout(io.StringIO()), contextlib.redirect_stderr(io.StringIO()):
+        ss = andes.load(andes.get_case('kundur/kundur_full.xlsx'), default_config=True, no_output=True)
+        ss.PFlow.run()
+        first = {m: ss.__dict__[m].as_df(vin=True) for m in ('GENROU', 'TGOV1', 'PQ')}
+        _ = aj._dump_system(ss, True)
+        ss.reset()
+        ss.GENROU.alter('M', ss.GENROU.idx.v[1], 9.5)
+        ss.TGOV1.alter('R', ss.TGOV1.idx.v[0], 0.04)
+        ss.PQ.alter('p0', ss.PQ.idx.v[0], 10.0)
+        dump = json.loads(aj._dump_system(ss, True))
+    n = 0
+    for mname, par, pos, want in (('GENROU', 'M', 1, 9.5), ('TGOV1', 'R', 0, 0.04), ('PQ', 'p0', 0, 10.0)):
+        n += 1
+        got_df = float(ss.__dict__[mname].as_df(vin=True)[par].iloc[pos])
+        got_js = float(dump[mname][pos][par])
+        if abs(got_df - want) > 1e-12 or abs(got_js - want) > 1e-12:
+            return {'confirmed': True, 'inputs': {'case': 'kundur_full', 'sequence': 'as_df(vin=True) / json dump; reset(); %s.alter(%r, <device %d>, %r); export again' % (mname, par, pos, want)},
+                    'observed': 'as_df(vin=True) gives %r, the json dump %r, the altered input value is %r' % (got_df, got_js, want), 'native_cmd': 'contracts/fn_pu.py replay_as_df_after_reset'}
+    return {'confirmed': False, 'tried': n}
+
+
+replay_as_df_after_reset.real_system = True
